@@ -198,9 +198,13 @@ def run_record(rng, acc, d, clsname, tier, rec_seed=None):
 
     # ---------------- 1. payload byte flips (in place, restored afterwards)
     st = R.stage(W)
+    # (the staged set is verified once at these very paths, and every flipped variant keeps size AND both timestamps of the
+    # verified file -- silent corruption does not announce itself through stat())
+    must_open(["staged-before-flips"], st, R.view)
     for ci, p in enumerate(st):
         data = p.read_bytes()
         size = len(data)
+        st0 = os.stat(p)
         if tier == "thorough":
             offs = range(UB, size)
             masks = [rng.choice([0x01, 0x80, 0xFF])]
@@ -216,10 +220,13 @@ def run_record(rng, acc, d, clsname, tier, rec_seed=None):
                 b[off] ^= m
                 tmp.write_bytes(bytes(b))
                 os.replace(tmp, p)
+                os.utime(p, ns=(st0.st_atime_ns, st0.st_mtime_ns))
+                acc.count("flips_with_identical_stat") if (os.stat(p).st_size, os.stat(p).st_mtime_ns) == (st0.st_size, st0.st_mtime_ns) else None
                 by_name = W if off % 97 == 0 else None
                 must_fail(["flip", ci, off, m], st, by_name)
         tmp.write_bytes(data)
         os.replace(tmp, p)
+        os.utime(p, ns=(st0.st_atime_ns, st0.st_mtime_ns))
         acc.count("distinct_offsets_flipped", len(offs))
     must_open(["restored-after-flips"], st, R.view, W)
 
@@ -462,7 +469,7 @@ def inconclusive(cov):
     c = cov["counters"]
     r = []
     need = ["faults.flip", "faults.remove", "faults.foreign-subst", "faults.duplicate", "faults.ub-hash-nulled",
-            "faults.manifest-flip", "faults.explicit-manifest", "controls.explicit-manifest-exact-copy", "faults.stub-as-patch", "faults.stacked-on-other-fork", "controls.unmutated",
+            "faults.manifest-flip", "flips_with_identical_stat", "faults.explicit-manifest", "controls.explicit-manifest-exact-copy", "faults.stub-as-patch", "faults.stacked-on-other-fork", "controls.unmutated",
             "controls.padding-edit", "controls.fork-as-newest", "controls.uncommitted-newest", "controls.baseless", "faults.baseless-flip"]
     for k in need:
         if not c.get(k):
